@@ -70,9 +70,11 @@ def _control_flow(prog, rep):
     # R2 failure edges
     rep.rule("C19.R2", "no failure edge reaches a graph output or a successful return")
     okret = set()
+    from ..lib.cfgq import return_carriers
+    rcs = return_carriers(body)      # `_0` and, when the tail of main lives in a spliced helper, that helper's return local
     for b in sorted(body.reachable()):
         for st in body.blocks[b]["stmts"]:
-            if st["k"] == "assign" and st["p"]["l"] == 0 and "p" not in st["p"] and st["rv"]["k"] == "aggregate" and st["rv"].get("variant") == "Ok":
+            if st["k"] == "assign" and st["p"]["l"] in rcs and "p" not in st["p"] and st["rv"]["k"] == "aggregate" and st["rv"].get("variant") == "Ok":
                 okret.add(b)
     nfe = 0
     for b in sorted(body.reachable()):
